@@ -113,11 +113,9 @@ func (fs *ChrootFs) RemoveAll(path string) error {
 
 func (fs *ChrootFs) Rename(oldname, newname string) error {
 	return fs.wrapCall(oldname, func(fixedPath string) error {
-		newFile, err := fs.join(newname)
-		if err != nil {
-			return err
-		}
-		return fs.fs.Rename(fixedPath, newFile)
+		return fs.wrapCall(newname, func(newFile string) error {
+			return fs.fs.Rename(fixedPath, newFile)
+		})
 	})
 }
 
